@@ -361,3 +361,89 @@ def extract_index_tables(repo):
 
 
 EXTRACTORS = {"index_tables": ("IndexTable.lean", extract_index_tables)}
+
+
+# ---------------------------------------------------------------- constant() of every matcher impl
+
+_CONST_SHAPES = [
+    # (normalised body regex, ConstImpl constructor)
+    (r"^None$", ".never"),
+    (r"^self\.as_ref\(\)$", ".selfOpt"),
+    (r"^self\.as_ref\(\)\.map\(GraphName::as_ref\)$", ".selfOpt"),
+    (r"^if N == 1 \{ Some\(&self\[0\]\) \} else \{ None \}$", ".single"),
+    (r"^if N == 1 \{ Some\(self\[0\]\.as_ref\(\)\) \} else \{ None \}$", ".single"),
+    (r"^if self\.len\(\) == 1 \{ Some\(&self\[0\]\) \} else \{ None \}$", ".single"),
+    (r"^if self\.len\(\) == 1 \{ Some\(self\[0\]\.as_ref\(\)\) \} else \{ None \}$", ".single"),
+    (r"^self\.0\.constant\(\)$", ".inner"),
+    (r"^self\.0\.constant\(\)\.map\(Some\)$", ".innerSome"),
+]
+
+
+def _block_at(text, i, what):
+    i = text.index("{", i)
+    depth = 0
+    for j in range(i, len(text)):
+        if text[j] == "{":
+            depth += 1
+        elif text[j] == "}":
+            depth -= 1
+            if depth == 0:
+                return text[i:j + 1]
+    raise ExtractError("%s: unbalanced braces" % what)
+
+
+def extract_matcher_consts(repo):
+    """For every `impl … TermMatcher/GraphNameMatcher for <Type>` of api/src/term/matcher/*.rs: how
+    `constant()` is written (absent = the trait default, which must still be `None`)."""
+    import os
+    d = os.path.join(repo, "api/src/term/matcher")
+    try:
+        files = sorted(f for f in os.listdir(d) if f.endswith(".rs"))
+    except OSError as e:
+        raise ExtractError("cannot list %s: %s" % (d, e))
+    tabs = {"TermMatcher": [], "GraphNameMatcher": []}
+    defaults = {}
+    for fn in files:
+        text = read(repo, "api/src/term/matcher/" + fn)
+        text = re.sub(r"//[^\n]*", "", text)
+        for m in re.finditer(r"pub trait (TermMatcher|GraphNameMatcher)\b", text):
+            blk = _block_at(text, m.end(), fn)
+            mc = re.search(r"fn constant\(&self\)[^{]*", blk)
+            if not mc:
+                raise ExtractError("%s: trait %s has no default constant()" % (fn, m.group(1)))
+            body = re.sub(r"\s+", " ", _block_at(blk, mc.end() - 1, fn)[1:-1]).strip()
+            defaults[m.group(1)] = body
+        for m in re.finditer(r"\bimpl\b(?P<gen>\s*<.*?>)?\s+(?P<tr>TermMatcher|GraphNameMatcher)\s+for\s+(?P<ty>[^\n{]+?)\s*(?:\n\s*where\b|\{)", text):
+            ty = re.sub(r"\s+", " ", m.group("ty")).strip()
+            blk = _block_at(text, m.end() - 1, "%s: impl %s for %s" % (fn, m.group("tr"), ty))
+            mc = re.search(r"fn constant\(&self\)[^{]*", blk)
+            if mc:
+                body = re.sub(r"\s+", " ", _block_at(blk, mc.end() - 1, fn)[1:-1]).strip()
+                kind = None
+                for rx, k in _CONST_SHAPES:
+                    if re.match(rx, body):
+                        kind = k
+                        break
+                if kind is None:
+                    raise ExtractError("%s: constant() of `%s for %s` has an unknown shape: %r" % (fn, m.group("tr"), ty, body))
+            else:
+                kind = ".never"
+            if not re.search(r"fn matches<", blk):
+                raise ExtractError("%s: impl %s for %s without matches()" % (fn, m.group("tr"), ty))
+            tabs[m.group("tr")].append((ty, kind))
+    for tr in ("TermMatcher", "GraphNameMatcher"):
+        if defaults.get(tr) != "None":
+            raise ExtractError("default %s::constant() is no longer `None`: %r" % (tr, defaults.get(tr)))
+        if not tabs[tr]:
+            raise ExtractError("no impl of %s found" % tr)
+    out = [HEADER, "import SophiaModel.Model.MatcherSrc\n", "namespace SophiaModel.Gen\nopen SophiaModel.MatcherSrc\n\n"]
+    for tr, name in (("TermMatcher", "termMatcherConst"), ("GraphNameMatcher", "graphNameMatcherConst")):
+        out.append("/-- how `constant()` is written in each `impl %s for …` (`.never` = not overridden) -/\n" % tr)
+        out.append("def %s : List (String × ConstImpl) := [\n" % name)
+        out.append(",\n".join('  ("%s", %s)' % (ty.replace('"', '\\"'), k) for ty, k in sorted(tabs[tr])))
+        out.append("\n]\n\n")
+    out.append("end SophiaModel.Gen\n")
+    return "".join(out), {}
+
+
+EXTRACTORS["matcher_consts"] = ("MatcherTable.lean", extract_matcher_consts)
